@@ -21,7 +21,9 @@ RULE = (
     "{qualified, namespace-relative (where legal)} x {used once, used twice}; one file per type named <full name>.avsc in a "
     "scratch directory. Oracle: load_schema(root file) has the canonical form of, and encodes D_1 data identically to, the "
     "same types inlined at their first use in document order (reference inliner); load_schema_ordered over EVERY "
-    "dependencies-first order agrees; with any ONE file removed an error naming exactly the missing type is raised. "
+    "dependencies-first order agrees; with any ONE file removed (and, for a namespaced type, an unrelated null-namespace decoy file with the same short name present) "
+    "an error naming exactly the missing type is raised; the first realisations are repeated with the repository files being "
+    "symbolic links into separate directories. "
     "distinct_nontrivial = distinct (graph, namespaces, realisation) repositories."
 )
 ASSUMPTIONS = [
@@ -190,25 +192,35 @@ def canon_of(fa, schema):
     return fa.schema.to_parsing_canonical_form(schema)
 
 
-def check_repo(fa, res, tmpdir, n, es, kinds, ns, real, seen, tier):
+def check_repo(fa, res, tmpdir, n, es, kinds, ns, real, seen, tier, layout="plain"):
     from fastavro._schema_common import UnknownType
     from fastavro.repository.base import SchemaRepositoryError
 
     files = build_files(n, es, kinds, ns, real)
     root = full(0, ns)
-    ident = json.dumps([n, es, kinds, ns, real])
+    ident = json.dumps([n, es, kinds, ns, real, layout])
     if ident in seen:
         return
     seen.add(ident)
-    info = {"n": n, "edges": es, "kinds": kinds, "namespaces": ns, "realisation": real, "files": files}
+    info = {"n": n, "edges": es, "kinds": kinds, "namespaces": ns, "realisation": real, "files": files, "layout": layout}
     note_case(info)
     d = os.path.join(tmpdir, "repo")
-    if os.path.exists(d):
-        shutil.rmtree(d)
-    os.makedirs(d)
-    for fn, s in files.items():
-        with open(os.path.join(d, fn + ".avsc"), "w") as f:
-            json.dump(s, f)
+    store = os.path.join(tmpdir, "store")
+    for x in (d, store):
+        if os.path.exists(x):
+            shutil.rmtree(x)
+        os.makedirs(x)
+    for k, (fn, s) in enumerate(files.items()):
+        if layout == "symlinks":
+            # the repository directory holds symbolic links to files kept in separate directories
+            sub = os.path.join(store, "d%d" % k)
+            os.makedirs(sub)
+            with open(os.path.join(sub, "blob%d.json" % k), "w") as f:
+                json.dump(s, f)
+            os.symlink(os.path.join(sub, "blob%d.json" % k), os.path.join(d, fn + ".avsc"))
+        else:
+            with open(os.path.join(d, fn + ".avsc"), "w") as f:
+                json.dump(s, f)
     inlined = inline_first_use(files, root)
     node, defs = names.resolve(inlined)
     want_canon = canon.canonical((node, defs))
@@ -260,6 +272,12 @@ def check_repo(fa, res, tmpdir, n, es, kinds, ns, real, seen, tier):
         res.evals += 1
         p = os.path.join(d, miss + ".avsc")
         os.rename(p, p + ".gone")
+        decoy = None
+        if "." in miss and not os.path.lexists(os.path.join(d, miss.rsplit(".", 1)[1] + ".avsc")):
+            # an unrelated type of the null namespace with the same short name: it is NOT the missing type
+            decoy = os.path.join(d, miss.rsplit(".", 1)[1] + ".avsc")
+            with open(decoy, "w") as f:
+                json.dump({"type": "enum", "name": miss.rsplit(".", 1)[1], "symbols": ["DECOY"]}, f)
         try:
             try:
                 fa.schema.load_schema(os.path.join(d, root + ".avsc"))
@@ -272,6 +290,8 @@ def check_repo(fa, res, tmpdir, n, es, kinds, ns, real, seen, tier):
                 outcome = (type(e).__name__, str(e))
         finally:
             os.rename(p + ".gone", p)
+            if decoy:
+                os.remove(decoy)
         ok = (outcome[0] == "UnknownType" and outcome[1] == miss) or (outcome[0] == "SchemaRepositoryError" and f"'{miss}'" in outcome[1])
         if not ok:
             res.add(Violation("c19.missing", f"missing-file-not-named:{outcome[0]}", f"with {miss}.avsc removed: {outcome}; the error must name {miss} | {short(info, 300)}", dict(info, missing=miss)))
@@ -290,8 +310,11 @@ def run_unit(unit, tier):
     tmpdir = tempfile.mkdtemp(prefix="verif-c19-")
     try:
         for ns in ns_options(n):
-            for real in realisations(es, ns, tier):
+            reals = realisations(es, ns, tier)
+            for real in reals:
                 check_repo(fa, res, tmpdir, n, es, kinds, ns, real, seen, tier)
+            for real in reals[:3]:
+                check_repo(fa, res, tmpdir, n, es, kinds, ns, real, seen, tier, layout="symlinks")
     finally:
         shutil.rmtree(tmpdir, ignore_errors=True)
     res.distinct = len(seen)
@@ -307,7 +330,7 @@ def replay(case):
     tmpdir = tempfile.mkdtemp(prefix="verif-c19-")
     try:
         check_repo(fa, res, tmpdir, case["n"], tuple(map(tuple, case["edges"])), tuple(case["kinds"]), tuple(case["namespaces"]),
-                   tuple(map(tuple, case["realisation"])), set(), "quick")
+                   tuple(map(tuple, case["realisation"])), set(), "quick", layout=case.get("layout", "plain"))
     finally:
         shutil.rmtree(tmpdir, ignore_errors=True)
     return res.violations
